@@ -267,6 +267,8 @@ class InElastic(_Simu):
 
         Nn = self.mesh.Nn
         u = self.displacement
+        # results are stored at nodes unless the case below says otherwise
+        storedAtNodes = True
 
         if result in ["ux", "uy", "uz"]:
             values = u.reshape(Nn, -1)[:, self.__indexResult(result)]
@@ -282,6 +284,7 @@ class InElastic(_Simu):
 
         elif result in self.material.layout.slots:
             values = self.__Result_state(result)
+            storedAtNodes = False
 
         elif ("S" in result or "E" in result) and "_norm" not in result:
             isStress = "S" in result and result != "Strain"
@@ -302,12 +305,13 @@ class InElastic(_Simu):
                 result=res,
                 coef=self.material.coef,
             )
+            storedAtNodes = False
 
         else:
             Terminal.MyPrintError(f"The result '{result}' is not implemented yet.")
             return None  # type: ignore [return-value]
 
-        return self.Results_Reshape_values(values, nodeValues)
+        return self.Results_Reshape_values(values, nodeValues, storedAtNodes)
 
     def Results_Iter_Summary(
         self,
